@@ -48,6 +48,7 @@ fn main() {
     let code = dispatch!(id, mode, tier, seed, third;
         "C01" => vh::props::c01::C01,
         "C04" => vh::props::c04::C04,
+        "C06" => vh::props::c06::C06,
         "C07" => vh::props::c07::C07,
     );
     std::process::exit(code);
